@@ -167,7 +167,7 @@ pub fn gen_lib(src: &mut Src) -> (LefLibrary, Flags) {
         f.unsupported = true;
     }
     if src.bool() {
-        lib.units = Some(LefUnits { database_microns: Some(LefDbuPerMicron(*src.pick(&[1000u32, 2000, 100]))), ..Default::default() });
+        lib.units = Some(LefUnits { database_microns: Some(LefDbuPerMicron(*src.pick(&[100u32, 200, 400, 800, 1000, 2000, 4000, 8000, 10000, 20000]))), ..Default::default() });
     }
     (lib, f)
 }
